@@ -308,6 +308,26 @@ def run(ck):
             ck.ob("DEFUSE", rr.path, "success-response-carries-state-updated-bit", bool(tags) and nsh >= 2 and not bad,
                   "both success responses (with and without returned data) are built from the tag chosen by state_updated" if tags and nsh >= 2 and not bad else
                   "a response code of a successful invoke does not contain the state-updated tag (%d shifted values, %d without it / constant)" % (nsh, len(bad)), rr.loc(bad[0]) if bad else rr.loc())
+        # the contract's own balance is refreshed from the response on EVERY successful resume, with or without returned data: the
+        # write of receive_ctx.common.self_balance comes before the split on `data` (a switch S it dominates, one side of which
+        # pushes the returned data as a parameter, the other goes on to run the contract without doing so)
+        wbs = [bi for bi in sorted(rr.reachable()) for st in rr.stmts(bi) if "lhs" in st and st["lhs"][1] and re.search(r":self_balance$", str(st["lhs"][1][-1]))]
+        pbs = [bi for (bi, t) in rr.calls(r"Vec::<T, A>::push$") if any("ParameterVec" in g_ or "Vec<u8>" in g_ for g_ in (t["f"].get("gargs") or []))] or [bi for (bi, _) in rr.calls(r"Vec::<T, A>::push$")]
+        runs = set(bi for (bi, _) in rr.calls(r"run_config$"))
+        okb = False
+        for wb in wbs:
+            for pb in pbs:
+                for sb in rr.reachable():
+                    if rr.term(sb)["k"] != "switch" or not (rr.dominates(wb, sb) and rr.dominates(sb, pb)):
+                        continue
+                    for s2 in rr.succ(sb):
+                        r2 = rr.reach_from([s2], avoid={sb})
+                        if pb not in r2 and (r2 & runs):
+                            okb = True
+        ck.ob("DOM", rr.path, "balance-refreshed-on-every-successful-resume", len(wbs) == 1 and okb,
+              "self_balance is written before the split on the returned data" if len(wbs) == 1 and okb else
+              "the write of self_balance (%d found) does not come before the split between a response with and without returned data: after a successful transfer (no data) the contract still sees its old balance" % len(wbs),
+              rr.loc(wbs[0]) if wbs else rr.loc())
         if rc:
             o = rr.origins(rc[0][1]["args"][2], deep=True)
             ck.ob("DEFUSE", rr.path, "runs-stored-config", ("field", "config") in o or ("arg", 1) in o, "the resumed configuration is the stored one", rr.loc(rc[0][0]))
